@@ -17,6 +17,7 @@ import HtpModel.Lemmas.Decode
 import HtpModel.Lemmas.Segment
 import HtpModel.Lemmas.CursorInv
 import HtpModel.Lemmas.BufInv
+import HtpModel.Lemmas.OutInv
 
 namespace Htp.C01
 open Htp Htp.Conn Htp.Gen Htp.Decode
@@ -109,5 +110,15 @@ theorem C01_req_call_cursors_in_chunk (cfg : Cfg) (fuel : Nat) (d : Bytes) (c : 
     (ho : ∀ c', CallReach cfg (reqStoreChunk (some d) d.length c) c' → OwedOK c') :
     WFCur (reqDriverLoop cfg false fuel (reqStoreChunk (some d) d.length c)).1.inn :=
   (reqDriverLoop_wfb cfg fuel _ _ CallReach.start ⟨wf_reqStoreChunk d c hs, hb⟩ ho).1
+
+/-- **C01 (response direction, whole loop of a data call)**: from the well-formed chunk a response data call stores, the loop of
+    htp_connp_res_data returns with 0 <= consume, 0 <= read <= len <= |chunk| - every `data[read]` of a later pass is inside the chunk -
+    provided no pass finds a negative amount owed in a counted body state. (`consume <= read` is NOT claimed on this side: after an
+    invalid chunk-length line or a probed line in RES_FINALIZE the read offset is moved back.) -/
+theorem C01_res_call_cursors_in_chunk (cfg : Cfg) (fuel : Nat) (d : Bytes) (c : Conn) (hs : (d.length : Int) < 18446744073709551616)
+    (hb : outBufLen c ≤ cfg.fieldLimitHard)
+    (ho : ∀ c', CallReachO cfg (resStoreChunk (some d) d.length c) c' → OwedOKO c') :
+    WFO (resDriverLoop cfg false fuel (resStoreChunk (some d) d.length c)).1.out :=
+  (resDriverLoop_wfbo cfg fuel _ _ CallReachO.start (wfbo_resStoreChunk _ d c hs hb) ho).1
 
 end Htp.C01
